@@ -291,6 +291,17 @@ def evaluate(case, res):
                         sig + ' ' + progcase.exc_signature(e)))
     if out:
         return out
+    # concurrent mode: an execution may finish while the pass is under way,
+    # so what counts is its last committed state (= the state the deleting
+    # transaction saw), not the snapshot taken before the pass
+    last_state = {}
+    if case.get('concurrent') and res.recorder is not None:
+        from checks import trace
+        for cno, step, actor, changes in trace.History(res).iterate():
+            for table, id_, old, new in changes:
+                if table == trace.WF and new is not None and \
+                        new.get('state'):
+                    last_state[id_] = new['state']
     for p in res.extra['passes']:
         before, after = p['before'], p['after']
         now = p['now']
@@ -298,6 +309,8 @@ def evaluate(case, res):
         # ---- safety (both modes)
         for wid in deleted:
             w = before['wf'][wid]
+            if wid in last_state:
+                w = dict(w, state=last_state[wid])
             if w['parent_task'] is None:
                 if w['state'] not in TERMINAL or w['state'] in ignored:
                     out.append(('C18.deleted_ineligible',
